@@ -19,9 +19,10 @@ var arcAngles = []float64{0, 0, 0, 30, 45, 90, -60, 135, 180, 360, -90, 12.5}
 // genCmds builds a random command AST. The reference interpreter runs alongside so that the
 // generator knows the current point (arcs must have distinct end points) and keeps values bounded.
 //
-// Two feature combinations are defective on the unchanged tree and are kept out unless `all` is
-// set (see notes/C18.md, findings/C18): an arc command with more than one argument group, and a
-// closepath ending a sub-path that was opened implicitly by drawing after a closepath.
+// Two feature combinations were defective on the snapshot tree (repaired since; notes/C18.md,
+// findings/C18) and are only generated when `all` is set, which the random workload does: an arc
+// command with more than one argument group, and a closepath ending a sub-path that was opened
+// implicitly by drawing after a closepath.
 func genCmds(r *rand.Rand, maxCmds int, all bool) []Cmd {
 	n := 1 + r.Intn(maxCmds)
 	var cmds []Cmd
@@ -170,10 +171,21 @@ func genGroup(r *rand.Rand, letter byte, st *pathState) []float64 {
 		if ry < 0.25 {
 			ry = 0.25
 		}
-		// negative radii are used by absolute value (F.6.6).  Only both at once: a single negative
-		// radius mirrors the arc on the unchanged tree (findings/C18/arc-one-negative-radius.json)
-		if r.Intn(16) == 0 {
-			rx, ry = -rx, -ry
+		// negative radii are used by absolute value (F.6.6)
+		if r.Intn(12) == 0 {
+			rx = -rx
+		}
+		if r.Intn(12) == 0 {
+			ry = -ry
+		}
+		// a zero radius makes the arc a straight line to the end point (F.6.2)
+		switch r.Intn(60) {
+		case 0:
+			rx = 0
+		case 1:
+			ry = 0
+		case 2:
+			rx, ry = 0, 0
 		}
 		return []float64{rx, ry, phi, float64(r.Intn(2)), float64(r.Intn(2)), ex, ey}
 	}
@@ -190,9 +202,9 @@ func clampRel(d, cur float64) float64 {
 
 func genPath(r *rand.Rand) *In {
 	in := &In{Mode: "path", Color: pathFill, CurveTol: arcTol}
-	in.Cmds = genCmds(r, 12, false)
+	in.Cmds = genCmds(r, 12, true)
 	feat := Feat{}
-	d := pathText(r, in.Cmds, numSyntax{}, func(k string) { feat["num_"+k]++ })
+	d := pathText(r, in.Cmds, fullSyntax, func(k string) { feat["num_"+k]++ })
 	in.W, in.H = 400, 300
 	in.SVG = pathDoc(r, d, in.W, in.H)
 	in.FeatC = feat
@@ -266,19 +278,27 @@ func checkPath(in *In, res *fw.Result) {
 	res.Count("arcs_followed", int64(ms.Arcs))
 	res.Count("arc_cubics_sampled", int64(ms.ArcCubics))
 	res.Count("arcs_radius_scaled", int64(ms.ScaledArcs))
-	arcGroups, arcSegs := 0, 0
+	arcGroups, arcSegs, arcZero := 0, 0, 0
 	for _, s := range exp {
 		if s.K == 'A' {
 			arcSegs++
 		}
 	}
 	prev := byte(0)
+	implicitSub := false
 	for _, c := range in.Cmds {
 		res.Count("cmd_"+c.L, 1)
 		if c.L == "A" || c.L == "a" {
 			arcGroups += len(c.A)
+			if len(c.A) > 1 {
+				res.Count("arcs_in_repeated_groups", int64(len(c.A)-1))
+			}
 			for _, g := range c.A {
-				if g[0] < 0 || g[1] < 0 {
+				if g[0] == 0 || g[1] == 0 {
+					arcZero++
+				} else if (g[0] < 0) != (g[1] < 0) {
+					res.Count("arcs_one_negative_radius", 1)
+				} else if g[0] < 0 {
 					res.Count("arcs_negative_radius", 1)
 				}
 			}
@@ -289,6 +309,13 @@ func checkPath(in *In, res *fw.Result) {
 		lc := c.L[0] | 0x20
 		if prev == 'z' && lc != 'm' {
 			res.Count("z_then_draw", 1)
+			implicitSub = true
+		}
+		if lc == 'm' {
+			implicitSub = false
+		}
+		if lc == 'z' && implicitSub {
+			res.Count("z_closing_implicit_subpath", 1)
 		}
 		if lc == 's' || lc == 't' {
 			curvePrev := (lc == 's' && (prev == 'c' || prev == 's')) || (lc == 't' && (prev == 'q' || prev == 't'))
@@ -300,7 +327,10 @@ func checkPath(in *In, res *fw.Result) {
 		}
 		prev = lc
 	}
-	res.Count("arcs_zero_length_omitted", int64(arcGroups-arcSegs))
+	res.Count("arcs_zero_radius_as_line", int64(arcZero))
+	if n := arcGroups - arcSegs - arcZero; n > 0 {
+		res.Count("arcs_zero_length_omitted", int64(n))
+	}
 	for k, v := range in.FeatC {
 		res.Count(k, int64(v))
 	}
@@ -335,7 +365,7 @@ func astString(cmds []Cmd) string {
 func genPathErr(r *rand.Rand) *In {
 	in := &In{Mode: "patherr", Color: pathFill, W: 400, H: 300}
 	cmds := genCmds(r, 6, true)
-	good := pathText(r, cmds, numSyntax{UpperE: true, PlusExp: true}, func(string) {})
+	good := pathText(r, cmds, fullSyntax, func(string) {})
 	var d string
 	switch r.Intn(14) {
 	case 0: // drop the last number: wrong argument count
